@@ -443,6 +443,9 @@ SWEEP_TEXTS = [
     ("20200630221545.250[+5.30:IST]", (2020, 6, 30, 16, 45, 45, 250)),
     ("19991231235959", (1999, 12, 31, 23, 59, 59, 0)),
 ]
+# texts outside the notation, for the same sweep: refused wherever they stand (required or optional element alike)
+SWEEP_BAD = ["20230100", "20230018120000", "00000000", "20231301", "20230132101010.000[-5:EST]", "2023011", "20230101250000"]
+SWEEP_BAD_TIMES = ["250000", "126000", "12000"]
 SWEEP_TIMES = [("230000.000[-5:EST]", (4, 0, 0, 0)), ("001545.250[+5.30:IST]", (18, 45, 45, 250))]
 
 
@@ -468,6 +471,11 @@ def _sweep_worker(names):
                 s.case(case, nontrivial=True, labels=["per-attribute sweep" + ("/time" if is_time else "/datetime")])
                 for k, d in check_case(case):
                     s.fail(k, case, d)
+            for i in range(len(SWEEP_BAD_TIMES if is_time else SWEEP_BAD)):
+                case = {"kind": "sweep", "cls": name, "attr": attr, "bad": i}
+                s.case(case, nontrivial=True, labels=["per-attribute sweep/corrupted text"])
+                for k, d in check_case(case):
+                    s.fail(k, case, d)
     return s
 
 
@@ -481,7 +489,10 @@ def check_sweep(case):
     attr = case["attr"]
     t = {a: tt for a, k, tt in M.decl(cls)}[attr]
     is_time = isinstance(t, Types.Time)
-    text, want = (SWEEP_TIMES if is_time else SWEEP_TEXTS)[case["i"]]
+    if "bad" in case:
+        text, want = (SWEEP_BAD_TIMES if is_time else SWEEP_BAD)[case["bad"]], None
+    else:
+        text, want = (SWEEP_TIMES if is_time else SWEEP_TEXTS)[case["i"]]
     with warnings.catch_warnings():
         warnings.simplefilter("ignore")
         try:
@@ -498,7 +509,11 @@ def check_sweep(case):
         try:
             inst = Aggregate.from_etree(tree)
         except Exception as e:
+            if want is None:
+                return []
             return [("valid-text-rejected-in-class", f"{case['cls']}.{attr} = {text!r}: {e!r}")]
+        if want is None:
+            return [("corruption-accepted-in-class", f"{case['cls']}.{attr} = {text!r} converted, attribute is {M.stored(inst, attr)!r}")]
         val = M.stored(inst, attr)
     try:
         if is_time:
